@@ -232,7 +232,7 @@ void World::opMkMinterm(const Step &s)
     SymMT sm;
     genSym(R, D, F.spec.rel, sm, s.a[1] % 60, s.a[2] % 40);
     Val deflt = defaultOf(F.kind());
-    Val val = randomValue(R, F.kind(), 0);
+    Val val = randomValue(R, F.kind(), ((s.a[3] >> 3) % 5 == 0) ? 3 : 0);
     if (F.kind() == FK_MTB) val = Val::b(true);
     if (val.inf && F.kind() != FK_EVP) val = defaultOf(F.kind());
     // KF-C03-1 (known_findings.txt): a minterm whose value is the forest's
@@ -289,9 +289,13 @@ void World::opMkColl(const Step &s, bool useMax)
     Rng R(s.seed);
     const unsigned cnt = 1 + s.a[1] % 12;
     std::vector<SymMT> ms(cnt);
+    const int vflavour = ((s.a[4] >> 4) % 5 == 0) ? 3 : 0;     // 3: wide values (EV+ beyond 32 bits)
     for (unsigned i = 0; i < cnt; i++) {
         genSym(R, D, F.spec.rel, ms[i], s.a[2] % 50, s.a[3] % 40);
-        ms[i].val = randomValue(R, F.kind(), 0);
+        // one entry in five repeats the pattern of an earlier entry exactly
+        // (duplicates are combined by the builder itself, not by max/min nodes)
+        if (i && R.chance(1, 5)) { const Val keep = ms[i].val; ms[i] = ms[R.below(i)]; ms[i].val = keep; }
+        ms[i].val = randomValue(R, F.kind(), vflavour);
         if (F.kind() == FK_MTB) ms[i].val = Val::b(true);
         if (ms[i].val.inf && F.kind() != FK_EVP) ms[i].val = defaultOf(F.kind());
         // KF-C03-1: values equal to the transparent value only in the probe plan
@@ -450,8 +454,13 @@ void World::opBinary(const Step &s)
     bool threw = false;
     std::string ename;
     error::code ecode = error::code(0);
+    // one call in six passes the same dd_edge object as first operand and
+    // as result (in-place use)
+    const bool inplace = (ri == A.forest) && ((s.a[4] >> 3) % 6 == 0);
+    if (inplace) { *res->e = *A.e; desc << " [in place: result edge is the first operand]"; stats.fired["result_aliases_operand"]++; }
     try {
-        apply(binFactory(op), *A.e, *B.e, *res->e);
+        if (inplace) apply(binFactory(op), *res->e, *B.e, *res->e);
+        else         apply(binFactory(op), *A.e, *B.e, *res->e);
     }
     catch (MEDDLY::error &e) {
         threw = true;
@@ -752,6 +761,68 @@ void World::opMassCopy(const Step &s)
     for (dd_edge* e : cp) delete e;
     if (!failed()) checkEdge(A, "I1", cur_family, "after mass copy");
     note(OC_OK);
+}
+
+// hoard: a[0] slot, a[1] target size selector.  Creates copies of one edge
+// that stay alive across steps (released in stages by "unhoard").
+void World::opHoard(const Step &s)
+{
+    cur_family = "edges";
+    std::vector<size_t> ca = edgesWhere([&](const EdgeSlot &e) {
+        return e.forest >= 0 && forests[e.forest].alive && e.e->getNode() > 0;
+    });
+    if (ca.empty() || hoards.size() >= 3) { note(OC_SKIP); return; }
+    EdgeSlot &A = *edges[ca[s.a[0] % ca.size()]];
+    static const unsigned small[] = { 254, 255, 256, 257, 258, 300, 20 };
+    static const unsigned big[] = { 65534, 65535, 65536, 65537, 65600 };
+    unsigned n = small[s.a[1] % 7];
+    if (s.a[2] == 777) n = big[s.a[1] % 5];
+    Hoard* H = new Hoard;
+    H->forest = A.forest;
+    H->id = A.id;
+    H->tab = A.tab;
+    H->oracle = A.oracle;
+    H->copies.reserve(n);
+    for (unsigned i = 0; i < n; i++) H->copies.push_back(new dd_edge(*A.e));
+    hoards.push_back(H);
+    desc << "hold " << n << " copies of " << en(A);
+    stats.fired["counter_excursion"]++;
+    note(OC_OK, uint64_t(n));
+}
+
+// unhoard: a[0] hoard, a[1] how many stay.  Releases copies so that the
+// count lands on (or next to) a counter-width boundary, or releases all.
+void World::opUnhoard(const Step &s)
+{
+    cur_family = "edges";
+    if (hoards.empty()) { note(OC_SKIP); return; }
+    const size_t hi = s.a[0] % hoards.size();
+    Hoard* H = hoards[hi];
+    static const unsigned stay[] = { 256, 255, 257, 254, 0, 1, 65536, 65535, 253 };
+    size_t keep = stay[s.a[1] % 9];
+    if (keep >= H->copies.size()) keep = H->copies.size() / 2;
+    desc << "release copies of e" << H->id << "@F" << H->forest << ": " << H->copies.size() << " -> " << keep;
+    // check before releasing
+    if (H->forest >= 0 && forests[H->forest].alive && !H->copies.empty()) {
+        EdgeSlot tmp; tmp.forest = H->forest; tmp.tab = H->tab; tmp.oracle = H->oracle; tmp.e = H->copies.back();
+        if (!checkEdge(tmp, "I1", cur_family, "hoarded copy")) return;
+    }
+    const bool front = s.a[2] & 1;
+    while (H->copies.size() > keep) {
+        if (front) { delete H->copies.front(); H->copies.erase(H->copies.begin()); }
+        else { delete H->copies.back(); H->copies.pop_back(); }
+    }
+    if (H->copies.empty()) { delete H; hoards.erase(hoards.begin() + long(hi)); }
+    note(OC_OK, uint64_t(keep));
+}
+
+void World::dropHoards()
+{
+    for (Hoard* H : hoards) {
+        for (dd_edge* e : H->copies) delete e;
+        delete H;
+    }
+    hoards.clear();
 }
 
 // detach/attach: a[0] slot; detach an edge (becomes inert)
